@@ -79,7 +79,11 @@ def worker_main():
     from .util import setup_repo_path
 
     setup_repo_path()
+    from .util import assert_repo_imported
+
     mod = importlib.import_module("rv.props.%s" % job["prop"].lower())
+    if not getattr(mod, "IMPORTS_LATE", False):
+        assert_repo_imported()   # the tree under test, not some other installed copy
     ctx = Ctx(job["prop"], job["tier"], job["seed"], job["shard"], job["nshards"])
     t0 = time.time()
     mod.run_shard(ctx, job["desc"])
@@ -269,8 +273,9 @@ def run_property(prop, tier=None, seed=None):
         "verdict": "violated" if unknown else ("inconclusive" if inconc else "held"),
         "repo": repo_path(),
     }
-    os.makedirs(os.path.join(VERIF_DIR, "evidence"), exist_ok=True)
-    with open(os.path.join(VERIF_DIR, "evidence", "%s.json" % prop), "w") as f:
+    evdir = os.environ.get("RV_EVIDENCE_DIR") or os.path.join(VERIF_DIR, "evidence")
+    os.makedirs(evdir, exist_ok=True)
+    with open(os.path.join(evdir, "%s.json" % prop), "w") as f:
         json.dump(evidence, f, ensure_ascii=False, indent=1, sort_keys=True)
         f.write("\n")
 
